@@ -155,11 +155,14 @@ pub struct SrvCfg {
 	/// server-side WebSocket pings every so many (virtual) milliseconds; a peer that has not answered by the next tick
 	/// is closed for inactivity (inactive_limit 0, max_failures 1)
 	pub ping_ms: Option<u64>,
+	/// SRV-LOW: WebSocket connections are served through the low-level `jsonrpsee_server::ws::connect` (as in the
+	/// repository's `jsonrpsee_server_low_level_api` example) instead of the `TowerService`
+	pub low_ws: bool,
 }
 
 impl Default for SrvCfg {
 	fn default() -> Self {
-		SrvCfg { conns: vec![], scripts: vec![], stop: false, stop_twice: false, drop_handles: false, max_subs: 16, max_conns: 16, buffer: 16, slow_steps: 1, connect_points: false, tcp: false, max_resp: 0, wide_ids: 0, ping_ms: None }
+		SrvCfg { conns: vec![], scripts: vec![], stop: false, stop_twice: false, drop_handles: false, max_subs: 16, max_conns: 16, buffer: 16, slow_steps: 1, connect_points: false, tcp: false, max_resp: 0, wide_ids: 0, ping_ms: None, low_ws: false }
 	}
 }
 
@@ -419,22 +422,52 @@ pub fn setup(cfg: &SrvCfg) -> SrvState {
 	let serve_done = Arc::new(Mutex::new(vec![false; cfg.conns.len()]));
 	let sub_ids: Arc<Mutex<HashMap<(usize, usize), Value>>> = Arc::new(Mutex::new(HashMap::new()));
 	let sub_notify = Arc::new(Notify::new());
+	let low_guard = jsonrpsee_server::ConnectionGuard::new(cfg.max_conns as usize);
 	for (c, conn) in cfg.conns.iter().cloned().enumerate() {
-		let mut svc = builder.clone().build(methods.clone(), stop.clone());
-		// the server's own signal that a WebSocket session is over
-		let session_closed = svc.on_session_closed();
-		tokio::spawn(async move {
-			session_closed.await;
-			sched::log(format!("c{c}:session-closed"));
-		});
 		let (a, b) = tokio::io::duplex(1 << 16);
 		let stop2 = stop.clone();
 		let done = serve_done.clone();
-		tokio::spawn(async move {
-			let r = jsonrpsee_server::serve_with_graceful_shutdown(LoggedIo { inner: a, conn: c }, svc, stop2.shutdown()).await;
-			sched::log(format!("c{c}:serve-future-done:{}", r.is_ok()));
-			done.lock().unwrap()[c] = true;
-		});
+		if cfg.low_ws && matches!(conn, Conn::Ws(_) | Conn::WsRaw(_)) {
+			// low-level assembly: the application's own tower service calls ws::connect and spawns the connection future
+			let (methods, scfg, guard, stop3) = (methods.clone(), server_cfg(cfg), low_guard.clone(), stop.clone());
+			let svc = tower::service_fn(move |req: http::Request<hyper::body::Incoming>| {
+				let (methods, scfg, guard, stop3) = (methods.clone(), scfg.clone(), guard.clone(), stop3.clone());
+				async move {
+					let Some(permit) = guard.try_acquire() else {
+						return Ok::<_, std::convert::Infallible>(jsonrpsee_server::http::response::too_many_requests());
+					};
+					let conn_state = jsonrpsee_server::ConnectionState::new(stop3, c as u32, permit);
+					match jsonrpsee_server::ws::connect(req, scfg, methods, conn_state, jsonrpsee_server::middleware::rpc::RpcServiceBuilder::new()).await {
+						Ok((rp, conn_fut)) => {
+							tokio::spawn(async move {
+								conn_fut.await;
+								sched::log(format!("c{c}:session-closed"));
+							});
+							Ok(rp)
+						}
+						Err(rp) => Ok(rp),
+					}
+				}
+			});
+			tokio::spawn(async move {
+				let r = jsonrpsee_server::serve_with_graceful_shutdown(LoggedIo { inner: a, conn: c }, svc, stop2.shutdown()).await;
+				sched::log(format!("c{c}:serve-future-done:{}", r.is_ok()));
+				done.lock().unwrap()[c] = true;
+			});
+		} else {
+			let mut svc = builder.clone().build(methods.clone(), stop.clone());
+			// the server's own signal that a WebSocket session is over
+			let session_closed = svc.on_session_closed();
+			tokio::spawn(async move {
+				session_closed.await;
+				sched::log(format!("c{c}:session-closed"));
+			});
+			tokio::spawn(async move {
+				let r = jsonrpsee_server::serve_with_graceful_shutdown(LoggedIo { inner: a, conn: c }, svc, stop2.shutdown()).await;
+				sched::log(format!("c{c}:serve-future-done:{}", r.is_ok()));
+				done.lock().unwrap()[c] = true;
+			});
+		}
 		match conn {
 			Conn::Ws(script) => {
 				let sub_ids = sub_ids.clone();
